@@ -21,13 +21,17 @@ Decision (class):
         known read-only one,
         the same through an alias: a local variable assigned from X, a parameter of a generator function X is passed to, a
         parameter whose default value is X, a loop variable over X / an element X[k] when the elements are not provably immutable,
-        an escape the analysis does not follow (passed to an unknown function, returned, stored into another object) —
-        except "shared into run data": the object is inserted into / stored on some other object and the package it
-        happens in performs NO in-place mutation of non-local data (then nothing can mutate it later);
+        an escape the analysis does not follow (passed to a function outside generator/, unpacked with */**, alias depth > 4);
+        "shared into run data" — the object is returned, inserted into / stored on some other object — unless the package
+        it happens in performs NO in-place mutation of data that was not created in the same function (then nothing can
+        mutate it later);
         a functools cache whose function is not provably a pure function of immutable arguments.
   SModConst  (covered by Emit.const_state_history_independent)   possibly mutable, but no function can change it: every use
         in every function of generator/ is a read (iteration, `in`, subscript/attribute load, len/sorted/list/..., comparison,
-        formatting, read-only method) — constant after import.
+        formatting, read-only method) — constant after import.  Containers carry a nesting depth computed from their
+        import-time definition (list of strings = 1, dict of lists of strings = 2, unknown = follow every element): what is taken
+        out of a depth-1 container is immutable and not followed; list(X) / sorted(X) / X + [...] are fresh copies whose own
+        mutation is harmless while their elements stay shared.
   SMemoPure  (covered by Emit.memo_history_independent)   functools cache on a function whose parameters are all annotated
         with immutable scalar types (str/int/bool/float/bytes, Optional/Tuple of those) and whose body reads only its
         parameters, builtins, imported library modules, immutable module constants, constant (SModConst) module state and
@@ -152,7 +156,7 @@ class Analysis:
                     self.mods[m.name] = m
         self.sites = []
         self.immutable_names = 0
-        self.foreign_cache = {}
+        self.dynamic = []         # setattr / globals() / vars() / exec inside functions
         for m in self.mods.values():
             self.collect(m)
         for m in self.mods.values():
@@ -966,8 +970,6 @@ class Analysis:
                                "why": "dynamic access to a namespace (setattr/globals/vars/exec) inside a function: cannot be followed"})
         return self.sites
 
-    dynamic = []
-
     def ensure_binding(self, m, name, node):
         b = m.bindings.get(name)
         if b is None:
@@ -1186,6 +1188,5 @@ def worst(results):
 
 def analyse(repo):
     a = Analysis(repo)
-    a.dynamic = []
     sites = a.run()
     return sites, {"modules": sorted(m.rel for m in a.mods.values()), "immutable_module_names": a.immutable_names}
